@@ -45,6 +45,8 @@ type OpOptions struct {
 	NodeRoot      bool // node(id:) at the root with fragments
 	NodeRootPlain bool // wild: node(id:) { id }
 	AliasHelpers  bool // wild: alias id/__typename
+	IDVar         bool // sometimes call a client variable `id`, the name the executor uses for its own lookups (C01/C02 open finding variable-named-id)
+	EntityIDArgs  bool // String/ID argument values are sometimes the id of an existing entity (what an id-hint function recognises)
 }
 
 func SafeOps() OpOptions {
@@ -78,6 +80,8 @@ type opGen struct {
 	nfrag    int
 	nvar     int
 	features map[string]bool
+	fragsOn  map[string][]string // fragment names by type condition (for re-spreading: MultiSpread)
+	usedIDVar bool
 }
 
 // GenOp draws a valid operation of the given kind ("query"/"mutation"/"subscription") against a schema.
@@ -158,6 +162,13 @@ func (g *opGen) literal(t *ast.Type) (lit string, val interface{}) {
 		b := g.r.Bool()
 		return fmt.Sprint(b), b
 	case "String", "ID":
+		if g.o.EntityIDArgs && g.data != nil && g.r.Chance(1, 2) {
+			if ids := g.data.AllEntityIDs(); len(ids) > 0 {
+				s := hx.Pick(g.r, ids)
+				g.features["entity-id-argument"] = true
+				return fmt.Sprintf("%q", s), s
+			}
+		}
 		s := fmt.Sprintf("x%d", g.r.Intn(10))
 		return fmt.Sprintf("%q", s), s
 	}
@@ -165,7 +176,64 @@ func (g *opGen) literal(t *ast.Type) (lit string, val interface{}) {
 		e := hx.Pick(g.r, d.EnumValues).Name
 		return e, e
 	}
+	if d := g.schema.Types[t.NamedType]; d != nil && d.Kind == ast.InputObject {
+		return g.inputLiteral(d, 0)
+	}
 	return "null", nil
+}
+
+// inputLiteral draws an input-object literal; leaves may be variables (nested declarations).
+func (g *opGen) inputLiteral(d *ast.Definition, depth int) (string, interface{}) {
+	var parts []string
+	val := map[string]interface{}{}
+	for _, f := range d.Fields {
+		if g.r.Chance(1, 3) {
+			continue
+		}
+		fd := g.schema.Types[f.Type.Name()]
+		if fd != nil && fd.Kind == ast.InputObject {
+			if depth >= 1 {
+				continue
+			}
+			l, v := g.inputLiteral(fd, depth+1)
+			parts = append(parts, f.Name+": "+l)
+			val[f.Name] = v
+			continue
+		}
+		if f.Type.Elem != nil {
+			// list field: elements literal or variable
+			n := g.r.Range(0, 2)
+			var ls []string
+			vs := []interface{}{}
+			for i := 0; i < n; i++ {
+				l, v := g.leafOrVar(f.Type.Elem)
+				ls = append(ls, l)
+				vs = append(vs, v)
+			}
+			parts = append(parts, f.Name+": ["+strings.Join(ls, ", ")+"]")
+			val[f.Name] = vs
+			continue
+		}
+		l, v := g.leafOrVar(f.Type)
+		parts = append(parts, f.Name+": "+l)
+		val[f.Name] = v
+	}
+	g.features["input-object"] = true
+	return "{" + strings.Join(parts, ", ") + "}", val
+}
+
+// leafOrVar: a scalar literal, or a fresh variable declared with exactly this type
+func (g *opGen) leafOrVar(t *ast.Type) (string, interface{}) {
+	lit, val := g.literal(t)
+	if g.o.Variables && g.r.Chance(1, 3) {
+		vn := fmt.Sprintf("v%d", g.nvar)
+		g.nvar++
+		g.varDefs = append(g.varDefs, "$"+vn+": "+t.String())
+		g.vars[vn] = val
+		g.features["nested-variable"] = true
+		return "$" + vn, val
+	}
+	return lit, val
 }
 
 func (g *opGen) args(fd *ast.FieldDefinition) string {
@@ -183,9 +251,20 @@ func (g *opGen) args(fd *ast.FieldDefinition) string {
 		if !a.Type.NonNull && g.r.Chance(1, 4) {
 			continue
 		}
+		nDefs, nVar := len(g.varDefs), g.nvar
 		lit, val := g.literal(a.Type)
 		if g.o.Variables && g.r.Chance(1, 2) {
+			// the literal is replaced by one variable: variables declared inside it are dropped with it
+			for k := nVar; k < g.nvar; k++ {
+				delete(g.vars, fmt.Sprintf("v%d", k))
+			}
+			g.varDefs, g.nvar = g.varDefs[:nDefs], nVar
 			vn := fmt.Sprintf("v%d", g.nvar)
+			if !g.usedIDVar && g.r.Chance(1, 8) && g.o.IDVar {
+				vn = "id" // a client variable that happens to be called like the executor's own $id
+				g.usedIDVar = true
+				g.features["variable-named-id"] = true
+			}
 			g.nvar++
 			def := "$" + vn + ": " + a.Type.String()
 			if g.o.VarDefaults && g.r.Chance(1, 3) {
@@ -196,6 +275,10 @@ func (g *opGen) args(fd *ast.FieldDefinition) string {
 				}
 			} else {
 				g.vars[vn] = val
+				if !a.Type.NonNull && g.r.Chance(1, 6) {
+					g.vars[vn] = nil // an explicit null is a value: it must be forwarded
+					g.features["null-variable"] = true
+				}
 			}
 			g.varDefs = append(g.varDefs, def)
 			g.features["variable"] = true
@@ -335,7 +418,17 @@ func (g *opGen) selSetU(def *ast.Definition, depth, maxFields int, root bool, us
 			if g.r.Chance(1, 3) {
 				cond = "... "
 			}
+			if d := g.directive(); d != "" {
+				cond += strings.TrimSpace(d) + " "
+				g.features["directive-on-fragment"] = true
+			}
 			parts = append(parts, cond+g.selSetU(def, depth+1, 2, false, used))
+			continue
+		}
+		if !root && g.o.MultiSpread && len(g.fragsOn[def.Name]) > 0 && g.r.Chance(1, 3) {
+			// spread an EXISTING fragment again, at another place
+			g.features["multi-spread"] = true
+			parts = append(parts, "..."+hx.Pick(g.r, g.fragsOn[def.Name]))
 			continue
 		}
 		if !root && g.o.NamedFrags && g.r.Chance(1, 10) {
@@ -344,6 +437,10 @@ func (g *opGen) selSetU(def *ast.Definition, depth, maxFields int, root bool, us
 			g.nfrag++
 			body := g.selSetU(def, depth+1, 2, false, used)
 			g.frags = append(g.frags, "fragment "+fn+" on "+def.Name+" "+body)
+			if g.fragsOn == nil {
+				g.fragsOn = map[string][]string{}
+			}
+			g.fragsOn[def.Name] = append(g.fragsOn[def.Name], fn)
 			parts = append(parts, "..."+fn)
 			if g.o.MultiSpread && g.r.Chance(1, 3) {
 				parts = append(parts, "..."+fn)
